@@ -936,6 +936,122 @@ def event_flags_rule(ctx):
     return obs
 
 
+def wave10_rules(ctx):
+    """obligations added after the tenth wave of seeded changes"""
+    import guards as gd
+    from share import relabel
+    ob = ctx.ob
+    tc = ctx.tc
+    obs = []
+    # (1) arguments are positional: in every text the element emitter can write for an `E(..)` call the array of slot-value names
+    #     is the sixth argument (tag, generics, init, children, slot, names) - the slot position is filled (`undefined`) when there
+    #     is no slot.  Methods that write an optional argument are opened into their alternatives.
+    ef = [g for g in tc.fns if g.base == "Element" and g.name == "to_proc_gen" and g.body]
+    if ef:
+        g = ef[0]
+        toks = es.linearize(g.body, top=True)
+
+        def open_calls(ts, depth=0):
+            out = []
+            for t in ts:
+                if t[0] == "call" and depth < 2:
+                    hs = [h for h in tc.fns if h.name == t[1] and h.body and "proc_gen" in h.module and h.base and h.name.startswith("write_")]
+                    if len(hs) == 1:
+                        out += open_calls(es.linearize(hs[0].body), depth + 1)
+                        continue
+                if t[0] == "if":
+                    out.append(("if", t[1], open_calls(t[2], depth), open_calls(t[3], depth)))
+                elif t[0] == "match":
+                    out.append(("match", t[1], [(p_, open_calls(b_, depth)) for p_, b_ in t[2]]))
+                elif t[0] == "for":
+                    out.append(("for", t[1], open_calls(t[2], depth)))
+                elif t[0] == "closure-call":
+                    out.append(("closure-call", t[1], t[2], [open_calls(c_, depth) for c_ in t[3]]))
+                else:
+                    out.append(t)
+            return out
+        stmts = [st for st, _m in c06_statements_of(toks)]
+        positions = set()
+        n_paths = 0
+        for st in stmts:
+            for sk in es.paths(open_calls(st), limit=2048):
+                if not sk.startswith("E("):
+                    continue
+                flat = re.sub("\x02[^\x03]*\x03", "\x00", sk)
+                while "\x02" in flat:
+                    flat2 = re.sub("\x02[^\x02\x03]*\x03", "\x00", flat)
+                    if flat2 == flat:
+                        break
+                    flat = flat2
+                depth, commas = 0, 0
+                for ch in flat:
+                    if ch in "([{":
+                        if ch == "[" and depth == 1:
+                            positions.add(commas)
+                            n_paths += 1
+                            break
+                        depth += 1
+                    elif ch in ")]}":
+                        depth -= 1
+                    elif ch == "," and depth == 1:
+                        commas += 1
+        okp = positions <= {5} and n_paths > 0
+        obs.append(ob("C04.proto/E/names-position", okp if n_paths else None, ctx.where(g), "the slot-value names of an element are always its sixth argument (%d texts)" % n_paths if okp else "the names array can be argument number %s (counted from 1)" % sorted(x + 1 for x in positions),
+                      witness=None if okp or not n_paths else "<comp><a slot:x/></comp> without a slot attribute emits E(\"comp\",{},f,c,[\"x\"]): the names sit in the slot position"))
+    # (2) a script keyword value is written bare: `true` for an attribute without a value is never run through the string escaper
+    quoted = []
+    for f in tc.fns:
+        if not f.body or "proc_gen" not in f.module:
+            continue
+        from rules.c02 import FnScope
+        scope = None
+        for n in sir.walk(f.body, into_closures=True):
+            if n.get("k") == "call" and (sir.call_name(n) or "").split("::")[-1] == "gen_lit_str" and n["args"]:
+                a = sir.strip_ref(n["args"][0])
+                val = a.get("v") if a.get("k") == "lit" else None
+                if a.get("k") == "path" and len(a["segs"]) == 1:
+                    scope = scope or FnScope(f.node, tc.fns)
+                    r = scope.resolve(a["segs"][0], n)
+                    if r is not None and r[0] == "let" and r[1] is not None and r[1].get("k") == "lit":
+                        val = r[1].get("v")
+                if val in ("true", "false", "null", "undefined"):
+                    quoted.append("%s quotes the keyword `%s`" % (f.name, val))
+    obs.append(ob("C04.syntax/keyword-bare", not quoted, "proc_gen/tag.rs", "no script keyword value is passed through the string escaper" if not quoted else "; ".join(quoted[:2]),
+                  witness=None if not quoted else "<view data:x/> registers the string \"true\" instead of the boolean true"))
+    # (3) a virtual block is replaced by its children only when it carries nothing else: every other field of the variant is tested
+    ek = tc.enum("ElementKind")
+    pure = [v for v in (ek["variants"] if ek else []) if v["name"] == "Pure"]
+    n3 = 0
+    for f in tc.fns:
+        if not f.body or f.module[:2] != ["parse", "tag"] or not pure:
+            continue
+        G = None
+        for r in sir.walk(f.body, into_closures=True):
+            if r.get("k") != "return" or r.get("e") is None:
+                continue
+            t = sir.expr_str(r["e"]).replace(" ", "")
+            if not re.search(r"mem::(replace|take)\(children", t):
+                continue
+            G = G or gd.guards_of(f.body)
+            gtxt = " ".join(sir.expr_str(sj) if kd == "cond" else sir.expr_str(sj[0]) for kd, sj, pl in G.get(id(r), []))
+            others = [fl["name"] for fl in pure[0].get("fields", []) if fl["name"] != "children"]
+            missing = [o_ for o_ in others if not re.search(r"\b%s\b" % re.escape(o_), gtxt)]
+            n3 += 1
+            obs.append(ob("C04.family/Pure/flatten#%d" % n3, not missing, ctx.where(f), "a block is flattened only after %s were found empty" % others if not missing else "a block is flattened without looking at %s" % missing,
+                          witness=None if not missing else "<block wx:if=\"{{c}}\" slot=\"s\">..</block> loses its slot"))
+    if not n3:
+        obs.append(ob("C04.family/Pure/flatten", None, "parse/tag.rs", "the place where a virtual block is replaced by its children is not in a form this rule reads"))
+    # (4) an identifier denotes the innermost scope of that name (shared with C05.innermost / C03.scope)
+    from rules.c05 import check_innermost
+    obs += relabel(check_innermost(ctx), "C05.innermost", "C04.scope/innermost")
+    return obs
+
+
+def c06_statements_of(toks):
+    from rules.c06 import statements as _st
+    return _st(toks)
+
+
 def wave8_rules(ctx):
     """obligations added after the eighth wave of seeded changes"""
     import absint as ai
@@ -1025,4 +1141,5 @@ def run(ctx):
         x["key"] = x["key"].replace("C02.ident", "C04.syntax/ident")
         obs.append(x)
     obs += wave8_rules(ctx)
+    obs += wave10_rules(ctx)
     return obs
